@@ -1792,8 +1792,8 @@ func opSet(h *Hist) {
 		if i == faultAt {
 			switch fault {
 			case 2:
-				type named string
-				bad := []any{42, []byte(key), 'x', nil, &key, named(key), 1.5, true, []string{key}, fmt.Stringer(nil)}[h.d.Draw("bad-key", 10)]
+				// values that are clearly not strings (a named string type is left out: whether it counts as a string key is not stated)
+				bad := []any{42, []byte(key), 'x', nil, &key, 1.5, true, []string{key}, struct{ s string }{key}, int64(7)}[h.d.Draw("bad-key", 10)]
 				args = append(args, bad, gv)
 				desc = append(desc, fmt.Sprintf("%T(non-string key)", bad))
 				continue
